@@ -710,3 +710,202 @@ fn first_use_child_f(dir: &Path, fault: Option<Fault>, emulated_procfs: bool) ->
         s
     }
 }
+
+// ---------------------------------------------------------------------------
+// racing callers (C12, C13)
+// ---------------------------------------------------------------------------
+
+/// yields the CPU at pseudo-random system-call boundaries so that the threads interleave differently
+/// in every round (the schedule is not replayable bit by bit, the per-thread transcripts are)
+struct Yielder(Rng);
+
+impl Interposer for Yielder {
+    fn pre(&mut self, _idx: usize, _call: &Call) -> Action {
+        match self.0.below(6) {
+            0 => std::thread::yield_now(),
+            1 => std::thread::sleep(std::time::Duration::from_micros(self.0.below(200) as u64)),
+            _ => {}
+        }
+        Action::Proceed
+    }
+}
+
+pub fn suite_race(ctx: &mut Ctx, seed: u64, n: usize, opname: &str) {
+    use std::sync::{Arc, Barrier};
+    let mut rng = Rng::new(seed);
+    for i in 0..n {
+        let mut crng = rng.fork();
+        let case_seed = crng.0;
+        let spec = TreeSpec::generate(&mut crng, 10);
+        let dirs = spec.dirs();
+        let nthreads = 2 + crng.below(5);
+        // the operations of the threads
+        let ops_: Vec<Op> = if opname == "mkdir_all" {
+            let base = crng.pick(&dirs).clone();
+            let chain: Vec<&[u8]> = vec![b"n1", b"n2", b"n3", b"n4"];
+            (0..nthreads)
+                .map(|_| {
+                    let depth = 1 + crng.below(4);
+                    let mut p = base.clone();
+                    for c in &chain[..depth] {
+                        p = tree::join(&p, c);
+                    }
+                    if crng.chance(1, 4) {
+                        p.push(b'/');
+                    }
+                    Op::MkdirAll { path: p, mode: 0o755 }
+                })
+                .collect()
+        } else {
+            // remove_all of one entry (preferably a non-empty directory) by every thread
+            let mut cands: Vec<&tree::Entry> = spec.entries.iter().filter(|e| e.kind == Kind::Dir).collect();
+            if cands.is_empty() {
+                cands = spec.entries.iter().collect();
+            }
+            if cands.is_empty() {
+                continue;
+            }
+            let target = (*crng.pick(&cands)).path.clone();
+            (0..nthreads).map(|_| Op::RemoveAll { path: target.clone() }).collect()
+        };
+        let (top, rootdir) = setup_case_dir(ctx, "case", &spec);
+        // make the subtree to remove bigger so that the threads really overlap
+        if opname != "mkdir_all" {
+            if let Op::RemoveAll { path } = &ops_[0] {
+                let d = rootdir.join(OsStr::from_bytes(path));
+                if d.is_dir() {
+                    for a in 0..6 {
+                        let sub = d.join(format!("w{a}"));
+                        let _ = fs::create_dir(&sub);
+                        for b in 0..6 {
+                            let _ = fs::write(sub.join(format!("f{b}")), b"x");
+                        }
+                        let _ = std::os::unix::fs::symlink("../../..", sub.join("up"));
+                    }
+                }
+            }
+        }
+        let labels = Labels::of_tree(&spec, &rootdir);
+        let before = tree::snapshot(&top);
+        let barrier = Arc::new(Barrier::new(nthreads));
+        let mut handles = Vec::new();
+        for (k, op) in ops_.iter().cloned().enumerate() {
+            let rootdir = rootdir.clone();
+            let barrier = barrier.clone();
+            let emulated = (k + i) % 2 == 0 || ctx.no_openat2;
+            let yseed = case_seed ^ (k as u64).wrapping_mul(0x9E3779B97F4A7C15);
+            handles.push(std::thread::spawn(move || {
+                let mut root = Root::open(&rootdir).expect("open root");
+                root.verif_set_emulated(emulated);
+                let cfg = cfg_line(&root, emulated, ResolverFlags::empty());
+                barrier.wait();
+                let (outcome, log) = ops::run_recorded(&root, &op, Some(Box::new(Yielder(Rng::new(yseed)))));
+                let ident = match &outcome {
+                    Outcome::Fd(fd) => {
+                        let mut st: libc::stat = unsafe { std::mem::zeroed() };
+                        unsafe { libc::fstat(fd.as_raw_fd(), &mut st) };
+                        Some((st.st_dev, st.st_ino, st.st_mode & libc::S_IFMT == libc::S_IFDIR))
+                    }
+                    _ => None,
+                };
+                (op, cfg, outcome, log, ident)
+            }));
+        }
+        let results: Vec<_> = handles.into_iter().map(|h| h.join().expect("thread")).collect();
+        let after = tree::snapshot(&top);
+        // verdict of the round
+        let mut bad: Vec<String> = Vec::new();
+        for (k, (op, _, outcome, _, ident)) in results.iter().enumerate() {
+            match outcome {
+                Outcome::Fd(_) | Outcome::Unit => {}
+                Outcome::Err(e) => bad.push(format!("thread {k} {} failed: {}", op.line(), ops::kind_str(e))),
+                Outcome::Panic(_) => bad.push(format!("thread {k} panicked")),
+                Outcome::Bytes(_) => {}
+            }
+            if opname == "mkdir_all" {
+                if let (Op::MkdirAll { path, .. }, Some((dev, ino, isdir))) = (op, ident) {
+                    if !isdir {
+                        bad.push(format!("thread {k} got a handle that is not a directory"));
+                    }
+                    // the handle is the directory the path names now
+                    let mut p = path.clone();
+                    while p.ends_with(b"/") {
+                        p.pop();
+                    }
+                    let key = [b"root/".as_ref(), &p].concat();
+                    match after.get(&key) {
+                        Some(e) if (e.dev, e.ino) == (*dev, *ino) => {}
+                        _ => bad.push(format!("thread {k}: handle is not the directory at {}", fmt::hex(&p))),
+                    }
+                }
+            }
+        }
+        if opname == "mkdir_all" {
+            // nothing removed or modified; additions are directories on the requested chains
+            for (k, e) in &before {
+                match after.get(k) {
+                    Some(g) if g.kind == e.kind && g.ino == e.ino && g.body == e.body => {}
+                    _ => bad.push(format!("{} was removed or replaced", fmt::hex(k))),
+                }
+            }
+            for (k, e) in &after {
+                if !before.contains_key(k) {
+                    let wanted = results.iter().any(|(op, ..)| match op {
+                        Op::MkdirAll { path, .. } => {
+                            let full = [b"root/".as_ref(), path.as_slice()].concat();
+                            full.starts_with(k) && (full.len() == k.len() || full[k.len()] == b'/')
+                        }
+                        _ => false,
+                    });
+                    if e.kind != 'd' || !wanted {
+                        bad.push(format!("unexpected new entry {} {}", e.kind, fmt::hex(k)));
+                    }
+                }
+            }
+        } else if let Op::RemoveAll { path } = &results[0].0 {
+            let key = [b"root/".as_ref(), path.as_slice()].concat();
+            let mut pre = key.clone();
+            pre.push(b'/');
+            for (k, e) in &before {
+                let inside = *k == key || k.starts_with(&pre);
+                match (inside, after.get(k)) {
+                    (true, Some(_)) => bad.push(format!("{} still exists", fmt::hex(k))),
+                    (false, None) => bad.push(format!("{} outside the named subtree was removed", fmt::hex(k))),
+                    (false, Some(g)) if g.kind != e.kind || g.ino != e.ino || g.body != e.body => {
+                        bad.push(format!("{} outside the named subtree was modified", fmt::hex(k)))
+                    }
+                    _ => {}
+                }
+            }
+            for k in after.keys() {
+                if !before.contains_key(k) {
+                    bad.push(format!("{} was created", fmt::hex(k)));
+                }
+            }
+        }
+        for (k, (op, cfg, outcome, log, _)) in results.iter().enumerate() {
+            let mut s = String::new();
+            s.push_str(&format!("case {i}t{k}\nmeta seed={case_seed} suite=race threads={nthreads}\n"));
+            s.push_str(&format!("tree {}\n", spec.entries.len()));
+            s.push_str(&spec.lines());
+            s.push_str(&op.line());
+            s.push('\n');
+            s.push_str(cfg);
+            s.push('\n');
+            s.push_str(&fmt::transcript(log));
+            s.push_str(&outcome.line(&labels));
+            s.push('\n');
+            if k == 0 {
+                if bad.is_empty() {
+                    s.push_str("race ok\n");
+                } else {
+                    s.push_str(&format!("race BAD {}\n", bad.join("; ")));
+                }
+            }
+            s.push_str("end\n");
+            ctx.out.write_all(s.as_bytes()).unwrap();
+        }
+        drop(results);
+        let _ = fs::remove_dir_all(&top);
+    }
+}
